@@ -20,6 +20,21 @@ pub fn check(bc: &BuildCase, obs: &mut Obs) -> Result<(), Fail> {
     let n = built.size();
     let vals = built.values();
     let text = catch(|| built.qr.to_str()).map_err(|p| Fail { sig: panic_sig(&p), msg: format!("to_str panicked: {} ({:?})", p, bc) })?;
+    check_text(&text, &vals, n, bc)?;
+    let lines: Vec<&str> = text.split('\n').collect();
+    obs.label(&format!("band:{}", crate::gens::version_band(version_from_size(n).unwrap_or(1))));
+    obs.nontrivial(bc.hash());
+    obs.sample(&format!("band:{}", crate::gens::version_band(version_from_size(n).unwrap_or(1))), || {
+        let mut s = bc.to_sample();
+        s["lines"] = lines.len().into();
+        s["first_line_prefix"] = lines[0].chars().take(12).collect::<String>().into();
+        s
+    });
+    Ok(())
+}
+
+/// Everything C16 states about one text rendering of a matrix (`vals` row-major, side `n`).
+pub fn check_text(text: &str, vals: &[bool], n: usize, bc: &BuildCase) -> Result<(), Fail> {
     let lines: Vec<&str> = text.split('\n').collect();
     let want_lines = (n + 1) / 2 + 1;
     ensure!(lines.len() == want_lines, "line_count", "size {}: {} lines, expected (size+1)/2+1 = {} ({:?})", n, lines.len(), want_lines, bc);
@@ -70,14 +85,6 @@ pub fn check(bc: &BuildCase, obs: &mut Obs) -> Result<(), Fail> {
             }
         }
     }
-    obs.label(&format!("band:{}", crate::gens::version_band(version_from_size(n).unwrap_or(1))));
-    obs.nontrivial(bc.hash());
-    obs.sample(&format!("band:{}", crate::gens::version_band(version_from_size(n).unwrap_or(1))), || {
-        let mut s = bc.to_sample();
-        s["lines"] = lines.len().into();
-        s["first_line_prefix"] = lines[0].chars().take(12).collect::<String>().into();
-        s
-    });
     Ok(())
 }
 
